@@ -111,6 +111,7 @@ type hGenOpts struct {
 	Checks    bool // generate explicit check ops
 	ManySaves bool
 	Restarts  bool // more reopen / prune ops (C26)
+	Deep      int  // 0..10: probability*10 of a "deep" history (bulk fills/deletes, saves and prunes dominate: height>=2, inner splits/merges across versions)
 }
 
 func hDrawRun(rt *rapid.T, o hGenOpts, label string, del bool) (a, n, s int) {
@@ -199,6 +200,13 @@ func hDrawHistory(rt *rapid.T, o hGenOpts) hCase {
 	if o.Restarts {
 		table = append(table, wop{"reopen", 7}, wop{"prune", 5})
 	}
+	deep := o.Deep > 0 && rapid.IntRange(0, 9).Draw(rt, "deep") < o.Deep
+	if deep {
+		table = append(table, wop{"fill", 14}, wop{"delrun", 12}, wop{"setrun", 8}, wop{"save", 16}, wop{"prune", 12})
+		if nops > 24 {
+			nops = 24
+		}
+	}
 	if o.Checks {
 		table = append(table, wop{"check", 7})
 	}
@@ -217,7 +225,9 @@ func hDrawHistory(rt *rapid.T, o hGenOpts) hCase {
 	for i := 0; i < nops; i++ {
 		l := fmt.Sprintf("o%d", i)
 		t := rapid.SampledFrom(kinds).Draw(rt, l+"t")
-		if i == 0 {
+		if i == 0 && deep {
+			t = "fill"
+		} else if i == 0 {
 			switch rapid.IntRange(0, 4).Draw(rt, l+"first") {
 			case 0, 1:
 				t = "setrun"
@@ -247,6 +257,9 @@ func hDrawHistory(rt *rapid.T, o hGenOpts) hCase {
 			// splits every leaf of the first 50/50, which splits inner nodes too.
 			op.A = rapid.IntRange(0, o.Span/4).Draw(rt, l+"a")
 			op.N = rapid.IntRange(o.MaxRun/2, o.MaxRun).Draw(rt, l+"n")
+			if deep {
+				op.N += o.MaxRun / 2
+			}
 			op.V = "f" + fmt.Sprint(i)
 		case "delrun":
 			op.A, op.N, op.S = hDrawRun(rt, o, l, true)
@@ -505,6 +518,9 @@ type hRun struct {
 
 	// behaviour switches
 	lightOnly bool // skip explicit full batteries (used by the differential B run)
+	everFast  bool // some writer process of this history had the fast index on
+	hookErr   error // first failure of a write-boundary reader
+	boundaryReads int
 
 	// observations
 	maxHeight   int8
@@ -542,6 +558,7 @@ func hNewRun(ctx *vk.Ctx, c hCase) (*hRun, error) {
 // version through Load(), which performs fast-index maintenance.
 func (r *hRun) open(cfg hCfg) error {
 	r.cfg = cfg
+	r.everFast = r.everFast || cfg.Fast
 	r.tree = bp.NewMutableTreeWithDB(r.db, cfg.Cache, nil, hOptions(cfg, r.init)...)
 	v, err := r.tree.Load()
 	if err != nil {
@@ -654,9 +671,9 @@ func (r *hRun) probesFor(s *hSnap, drawn []string, full bool) []string {
 		add(k)
 	}
 	rec := r.m.recent
-	lim := 40
+	lim := 24
 	if full {
-		lim = 400
+		lim = 200
 	}
 	if len(rec) > lim {
 		rec = rec[len(rec)-lim:]
@@ -684,9 +701,15 @@ func (r *hRun) probesFor(s *hSnap, drawn []string, full bool) []string {
 	return out
 }
 
-func hIterCollect(itr *bp.Iterator) (keys, vals []string, err error) {
+// hIterCollect drains an iterator; it gives up (an error) once more than max
+// entries were produced, so a non-terminating iteration is reported instead
+// of hanging the check.
+func hIterCollect(itr *bp.Iterator, max int) (keys, vals []string, err error) {
 	defer itr.Close()
 	for itr.Valid() {
+		if len(keys) > max {
+			return keys, vals, fmt.Errorf("iterator produced more than %d entries (model size); last key %q", max, keys[len(keys)-1])
+		}
 		k := itr.Key()
 		v := itr.Value()
 		if e := itr.Error(); e != nil {
@@ -830,7 +853,7 @@ func (r *hRun) verify(what string, t treeReader, s *hSnap, op *hOp, full bool, f
 			if err != nil {
 				return fmt.Errorf("%s: Iterator(%q,%q,%v): %v", what, rg[0], rg[1], asc, err)
 			}
-			gk, gv, err := hIterCollect(itr)
+			gk, gv, err := hIterCollect(itr, n+4)
 			if err != nil {
 				return fmt.Errorf("%s: Iterator(%q,%q,%v): %v", what, rg[0], rg[1], asc, err)
 			}
@@ -864,7 +887,7 @@ func (r *hRun) verify(what string, t treeReader, s *hSnap, op *hOp, full bool, f
 			}
 			gk = append(gk, string(k))
 			gv = append(gv, string(v))
-			return false
+			return len(gk) > n+4 // never loop forever
 		}); err != nil {
 			return fmt.Errorf("%s: Iterate: %v", what, err)
 		}
@@ -879,7 +902,7 @@ func (r *hRun) verify(what string, t treeReader, s *hSnap, op *hOp, full bool, f
 			if err != nil {
 				return err
 			}
-			gk, gv, err := hIterCollect(itr)
+			gk, gv, err := hIterCollect(itr, n+4)
 			if err != nil {
 				return fmt.Errorf("%s: Iterator(nil,nil,%v): %v", what, asc, err)
 			}
@@ -1189,7 +1212,17 @@ func (r *hRun) save() error {
 	r.m.dirty = false
 	r.hashes[ver] = snap.hash
 	r.saves++
-	return r.verifyWorking(nil, false)
+	if err := r.verifyWorking(nil, false); err != nil {
+		return err
+	}
+	if r.everFast && !r.cfg.Fast && !r.lightOnly {
+		// The index (maintained by an earlier fast-index-enabled process) is now
+		// behind this commit: a read-only loader with the option on must not
+		// trust it for the new version (stamp gating in getImmutable).
+		r.ctx.Class("reader-over-index-behind-commit")
+		return r.atomicReader(r.m.latest, r.m.vers, 0)
+	}
+	return nil
 }
 
 func (r *hRun) reopen(cfg hCfg) error {
@@ -1394,7 +1427,7 @@ func (r *hRun) readerOp(op *hOp) error {
 // atomicReader opens a fresh read-only handle (fast index on) right now and
 // checks the given versions. Used at physical-write boundaries.
 func (r *hRun) atomicReader(latest int64, vers map[int64]*hSnap, minVer int64) error {
-	t := bp.NewMutableTreeWithDB(r.inner, 0, nil, bp.FastIndexOption(true))
+	t := bp.NewMutableTreeWithDB(r.inner, 64, nil, bp.FastIndexOption(true))
 	v, err := t.LoadReadonly()
 	if err != nil {
 		return fmt.Errorf("write-boundary reader: LoadReadonly: %v", err)
@@ -1409,8 +1442,8 @@ func (r *hRun) atomicReader(latest int64, vers map[int64]*hSnap, minVer int64) e
 		}
 	}
 	sort.Slice(vs, func(i, j int) bool { return vs[i] > vs[j] })
-	if len(vs) > 3 {
-		vs = vs[:3]
+	if len(vs) > 2 {
+		vs = []int64{vs[0], vs[len(vs)/2]}
 	}
 	for _, ver := range vs {
 		imm, err := t.GetImmutableUnregistered(ver)
@@ -1421,17 +1454,53 @@ func (r *hRun) atomicReader(latest int64, vers map[int64]*hSnap, minVer int64) e
 		if ver < latest {
 			newer = vers[latest]
 		}
-		if err := r.verify(fmt.Sprintf("write-boundary reader (op#%d, write %d) view v%d", r.opIndex, r.db.writes, ver), imm, vers[ver], nil, false, true, newer); err != nil {
-			return err
+		// Only Get consults the fast index; keep this reader cheap (it runs
+		// after every physical write).
+		what := fmt.Sprintf("write-boundary reader (op#%d, write %d) view v%d", r.opIndex, r.db.writes, ver)
+		sn := vers[ver]
+		if imm.Size() != int64(len(sn.keys)) {
+			return fmt.Errorf("%s: Size() = %d, model %d", what, imm.Size(), len(sn.keys))
+		}
+		for _, k := range r.probesFor(sn, nil, false) {
+			want, present := sn.vals[k]
+			got, err := imm.Get(hB(k))
+			if err != nil {
+				return fmt.Errorf("%s: Get(%q): %v", what, k, err)
+			}
+			r.fastReads++
+			if newer != nil {
+				if nv, np := newer.vals[k]; np != present || nv != want {
+					r.staleReads++
+				}
+			}
+			if present && (got == nil || string(got) != want) || !present && got != nil {
+				return fmt.Errorf("%s: Get(%q) = %q (nil=%v), model %q present=%v [fast=true]", what, k, got, got == nil, want, present)
+			}
 		}
 	}
 	return nil
 }
 
+// probeEveryWrite installs a read-only loader (fast index on) that runs right
+// after EVERY physical write, i.e. in the middle of whatever operation
+// performs it (save, intermediate prune flush, index clear/rebuild).
+func (r *hRun) probeEveryWrite() {
+	r.db.hook = func(n int) {
+		if r.hookErr == nil {
+			r.boundaryReads++
+			r.hookErr = r.boundaryCheck()
+		}
+	}
+}
+
 // runHistory executes all ops; a final sweep checks every retained version.
 func (r *hRun) runHistory(c hCase) error {
 	for i := range c.Ops {
-		if err := r.step(i, &c.Ops[i]); err != nil {
+		err := r.step(i, &c.Ops[i])
+		if r.hookErr != nil {
+			return r.hookErr
+		}
+		if err != nil {
 			return err
 		}
 	}
@@ -1457,7 +1526,13 @@ func (r *hRun) finish() error {
 			}
 		}
 	}
-	return r.verifyAll(true)
+	if err := r.verifyAll(true); err != nil {
+		return err
+	}
+	if r.m.latest > 0 && !r.lightOnly {
+		return r.atomicReader(r.m.latest, r.m.vers, 0)
+	}
+	return nil
 }
 
 func (r *hRun) classes() {
